@@ -360,6 +360,9 @@ func kernelCase(c *Case, lean *LeanDriver) Verdict {
 	if c.Query == "kernel:acc" {
 		return accKernel(c, lean)
 	}
+	if c.Query == "kernel:slices" {
+		return sliceKernel(c, lean)
+	}
 	v := Verdict{ID: c.ID, Query: c.Query, Oracle: "kernel", Native: true}
 	data := c.Data()
 	if len(data) == 0 || len(c.Refs) == 0 {
